@@ -68,7 +68,18 @@ def one_case(job):
         elif x < 0.36:
             s.send(["save", "k"]); s.send(["load", "k"])
 
-    end = play.walk(sess, rng, story["path"], seed=4, max_turns=6, setup=setup, per_line=[churn], per_turn=[churn])
+    def sliced_line(s, r):
+        # deliver the next line in slices on the virtual clock (an outermost continue all the same)
+        if r.random() < 0.35 and s.send(["can"]).get("v"):
+            for _ in range(40):
+                a = s.send(["contasync", r.choice([1, 2, 3, 5])])
+                if a.get("r") != "ok" or a.get("v") is True:
+                    break
+            else:
+                s.send(["cont"])
+
+    end = play.walk(sess, rng, story["path"], seed=4, max_turns=6, setup=setup, per_line=[churn, sliced_line],
+                    per_turn=[churn])
     sess.close()
     res["end"] = end
     if end in ("fuel", "loaderr"):
